@@ -6,5 +6,5 @@ NOT_APPLICABLE = {
     "C13": "identifiers are pure functions of content; the only nondeterminism is Go map iteration order, which no seam controls (DESIGN.md §6)",
     "C17": "order preservation and round trip of the key encoding are pure functions of value pairs (DESIGN.md §6)",
     
-    "C16": PENDING,
+    
 }
